@@ -124,6 +124,13 @@ func (sh *SignedHeader) ValidateBasic() error {
 		return ErrProposerAddressMismatch
 	}
 
+	// The signer's address must be the one derived from the public key the
+	// signature is verified with; otherwise anybody could sign with a key of
+	// their own and merely name the proposer's address.
+	if sh.Signer.PubKey == nil || !bytes.Equal(KeyAddress(sh.Signer.PubKey), sh.Signer.Address) {
+		return ErrProposerAddressMismatch
+	}
+
 	var (
 		bz  []byte
 		err error
